@@ -61,6 +61,13 @@ def explore(ck: Check, n_tables: int, xlsx_every: int) -> None:
                 # one heading cell is the empty text: still a distinct name (CSV only: a spreadsheet cannot tell '' from an absent cell)
                 t[0][rng.randrange(len(t[0]))] = ""
                 ck.histogram["heading/empty-text"] += 1
+            if i % 5 == 2 and kind == "full":
+                # a body row whose cells are exactly the heading texts (a lookup table of its own column names, a concatenated
+                # export): an ordinary physical row, delivered once like any other
+                t.insert(rng.randint(1, len(t)), list(t[0]))
+                if rng.random() < 0.5:
+                    t.append(list(t[0]))
+                ck.histogram["body/row-equal-to-heading"] += 1
             inp = {"table": t, "format": fmt}
             path = tdp / f"t{i}.{fmt}"
             (write_xlsx(path, {"S": t}) if fmt == "xlsx" else write_csv(path, t))
